@@ -1636,6 +1636,22 @@ class ForAll(BinaryOperator):
             self._is_false_ = False
             yield out
 
+        if yield_when_false:
+            # whoever wants the false results as well (a disjunction tries its other operand for them) gets every other
+            # binding of the free variables: for those the condition fails for some value of the universal expression.
+            def key(binding):
+                return tuple(sorted((k, v.id_) for k, v in binding.items() if k in free_ids))
+            free_ids = {v._id_ for v in self.free_variables}
+            solved = {key({**sources, **sol}) for sol in self.solution_set}
+            domains = {v._id_: v._evaluate__(copy(sources)) for v in self.free_variables if v._id_ not in sources}
+            for extra in generate_combinations(domains):
+                binding = {var_id: val[var_id] for var_id, val in extra.items()}
+                out = copy(sources)
+                out.update(binding)
+                if key(out) not in solved:
+                    self._is_false_ = True
+                    yield out
+
     def _satisfying_bindings_(self, context: Dict[int, HashedValue]) -> Iterable[Dict[int, HashedValue]]:
         """
         All distinct bindings of the free variables for which the condition is true in the given context, a free
